@@ -15,4 +15,6 @@ def run(ctx):
     ca.send_guard(ctx)
     ca.claim_only(ctx)
     ca.normal_pair(ctx)
+    ctx.rule("R-LOSE-ORDER", "on every losing path the state leaves NORMAL before a frame is sent", floor=2)
+    ca.lose_order(ctx)
     return "guard dominance, who-may-call and argument provenance of every send entry point of ControllerApplication"
